@@ -28,11 +28,11 @@ const (
 
 var UTC = time.UTC
 
-func Now() Time                         { return rt.VNow() }
-func Since(t Time) Duration             { return rt.VNow().Sub(t) }
-func Until(t Time) Duration             { return t.Sub(rt.VNow()) }
-func Unix(sec int64, nsec int64) Time   { return time.Unix(sec, nsec) }
-func UnixMilli(msec int64) Time         { return time.UnixMilli(msec) }
+func Now() Time                                { return rt.VNow() }
+func Since(t Time) Duration                    { return rt.VNow().Sub(t) }
+func Until(t Time) Duration                    { return t.Sub(rt.VNow()) }
+func Unix(sec int64, nsec int64) Time          { return time.Unix(sec, nsec) }
+func UnixMilli(msec int64) Time                { return time.UnixMilli(msec) }
 func ParseDuration(s string) (Duration, error) { return time.ParseDuration(s) }
 func Date(year int, month Month, day, hour, min, sec, nsec int, loc *Location) Time {
 	return time.Date(year, month, day, hour, min, sec, nsec, loc)
